@@ -68,6 +68,7 @@ Next == /\ i <= Len(Recs)
         /\ LET r == Recs[i] IN
            /\ LET c == CASE r.k = "join.snap" -> SnapClass(r)
                          [] r.k = "join.closed" -> ClosedClass(r)
+                         [] r.k = "join.earlyclosed" -> (IF r.hung THEN "join-close-hangs" ELSE "")
                          [] r.k = "join.end" -> (IF r.leak # 0 THEN "join-leak"
                                                  ELSE IF r.late_join \in {"blocked", "alive"} THEN "join-on-stopped-base" ELSE "")
                          [] r.k = "join.halfstopped" -> (IF r.res \in {"blocked", "alive"} THEN "join-on-stopped-base"
@@ -76,7 +77,7 @@ Next == /\ i <= Len(Recs)
                          [] OTHER -> "" IN
               IF c = "" THEN TRUE ELSE PrintT(<<"VERDICT", i, c, r>>)
            /\ prev' = IF r.k = "join.snap" THEN [known |-> r.quiet /\ r.ready.join /\ ~r.listerr, S |-> Range(r.joined)]
-                      ELSE IF r.k = "join.closed" THEN [known |-> FALSE, S |-> {}] ELSE prev
+                      ELSE IF r.k \in {"join.closed", "join.earlyclosed"} THEN [known |-> FALSE, S |-> {}] ELSE prev
         /\ i' = i + 1
 Spec == Init /\ [][Next]_vars
 Done == (i = Len(Recs) + 1) => PrintT(<<"CONSUMED", Len(Recs)>>)
